@@ -20,14 +20,29 @@ import (
 	"verif/dsim/stubs"
 )
 
-// H is the harness.
-type H struct{}
+// H is the harness. With Filters set, every launch carries a work-group
+// filter (the way the driver splits a unified multi-GPU launch into one
+// request per GPU): this mode serves property C08.
+type H struct {
+	Filters bool
+	Prop    string
+}
 
 // ID implements harness.Harness.
-func (H) ID() string { return "C09" }
+func (h H) ID() string {
+	if h.Prop != "" {
+		return h.Prop
+	}
+	return "C09"
+}
 
 // Version implements harness.Harness.
-func (H) Version() string { return "c09-v3" }
+func (h H) Version() string {
+	if h.Filters {
+		return "c09-v4-filters"
+	}
+	return "c09-v4"
+}
 
 // Runs implements harness.Harness.
 func (H) Runs(tier string) int {
@@ -53,7 +68,7 @@ func (H) Meta() harness.Meta {
 			"links are reliable and FIFO per pair",
 		},
 		FaultKinds:     []string{"tie_reorder", "delay", "cross_reorder", "backpressure", "slow_lower_level", "ooo_response", "config_swarm"},
-		ExpectedProbes: []string{"dispatcher_waited_for_resources", "overlapping_kernels", "cu_exactly_one_wg_fits", "batched_completion", "all_dispatchers_busy", "alg_greedy", "alg_partition", "alg_round_robin", "probe_kernel_ran", "cross_kernel_batched_completion"},
+		ExpectedProbes: []string{"dispatcher_waited_for_resources", "overlapping_kernels", "cu_exactly_one_wg_fits", "batched_completion", "all_dispatchers_busy", "alg_greedy", "alg_partition", "alg_round_robin", "probe_kernel_ran", "cross_kernel_batched_completion", "launch_with_workgroup_filter", "filter_selects_no_workgroup"},
 		ShrinkBudget:   400,
 	}
 }
@@ -184,6 +199,8 @@ type kernelCfg struct {
 	LDS     int
 	At      uint64
 	IsProbe bool
+	// work-group filter: flattened work-group ids [FilterLo, FilterHi); -1 = none
+	FilterLo, FilterHi int
 }
 
 type cfg struct {
@@ -231,7 +248,7 @@ type wgPlacement struct {
 func ceilDiv(a, b int) int { return (a + b - 1) / b }
 
 // Run implements harness.Harness.
-func (H) Run(ch *choice.Source, opt harness.Options) harness.Result {
+func (h H) Run(ch *choice.Source, opt harness.Options) harness.Result {
 	r := rig.New(ch, 2_000_000)
 	c := cfg{Alg: []string{"round-robin", "greedy", "partition"}[ch.Pick([]int{2, 1, 1}, "alg")], Dispatchers: 1 + ch.Intn(8, "dispatchers")}
 	nCU := 1 + ch.Intn(8, "cus")
@@ -364,6 +381,28 @@ func (H) Run(ch *choice.Source, opt harness.Options) harness.Result {
 			at -= at % 2
 		}
 		kc.At = at
+		kc.FilterLo, kc.FilterHi = -1, -1
+		total := ceilDiv(kc.Grid[0], kc.WG[0]) * ceilDiv(kc.Grid[1], kc.WG[1]) * ceilDiv(kc.Grid[2], kc.WG[2])
+		if (h.Filters || ch.Bool(1, 4, "filter?")) && total > 1 {
+			// split the flattened work-group space into 2-4 consecutive ranges
+			// and launch one request per range, as the driver does for a
+			// unified multi-GPU device
+			parts := 2 + ch.Intn(3, "filter.parts")
+			per := ceilDiv(total, parts)
+			for part := 0; part < parts; part++ {
+				k2 := kc
+				k2.FilterLo, k2.FilterHi = part*per, min(total, (part+1)*per)
+				if part == parts-1 && ch.Bool(1, 3, "filter.beyond") {
+					k2.FilterHi = (part+1)*per + 5 // the driver's last range may reach beyond the grid
+				}
+				if k2.FilterLo >= total {
+					k2.FilterLo, k2.FilterHi = total, total+3 // an empty share: zero work-groups
+				}
+				k2.At = at + uint64(part)
+				c.Kernels = append(c.Kernels, k2)
+			}
+			continue
+		}
 		c.Kernels = append(c.Kernels, kc)
 	}
 	r.Mix("cfg", c)
@@ -410,6 +449,20 @@ func (H) Run(ch *choice.Source, opt harness.Options) harness.Result {
 		}
 		k.numWG = ceilDiv(kc.Grid[0], kc.WG[0]) * ceilDiv(kc.Grid[1], kc.WG[1]) * ceilDiv(kc.Grid[2], kc.WG[2])
 		k.req = protocol.NewLaunchKernelReq(driver.Port, proc.ToDriver)
+		if kc.FilterLo >= 0 {
+			total := k.numWG
+			lo, hi := kc.FilterLo, kc.FilterHi
+			k.numWG = max(0, min(hi, total)-min(lo, total))
+			nx, ny := ceilDiv(kc.Grid[0], kc.WG[0]), ceilDiv(kc.Grid[1], kc.WG[1])
+			k.req.WGFilter = func(_ *kernels.HsaKernelDispatchPacket, wg *kernels.WorkGroup) bool {
+				flat := wg.IDZ*nx*ny + wg.IDY*nx + wg.IDX
+				return flat >= lo && flat < hi
+			}
+			probes["launch_with_workgroup_filter"]++
+			if k.numWG == 0 {
+				probes["filter_selects_no_workgroup"]++
+			}
+		}
 		k.req.PID = 1
 		k.req.Packet = k.packet
 		k.req.CodeObject = k.co
@@ -576,6 +629,13 @@ func (H) Run(ch *choice.Source, opt harness.Options) harness.Result {
 				if wg.IDX < 0 || wg.IDX >= nx || wg.IDY < 0 || wg.IDY >= ny || wg.IDZ < 0 || wg.IDZ >= nz {
 					fail("R1", "map-outside-grid", "kernel %d: work-group (%d,%d,%d) outside the %dx%dx%d work-group grid", k.idx, wg.IDX, wg.IDY, wg.IDZ, nx, ny, nz)
 					return
+				}
+				if k.cfg.FilterLo >= 0 {
+					flat := wg.IDZ*nx*ny + wg.IDY*nx + wg.IDX
+					if flat < k.cfg.FilterLo || flat >= k.cfg.FilterHi {
+						fail("R1", "mapped-outside-filter", "kernel %d: work-group (%d,%d,%d) (flattened %d) mapped although the filter selects [%d,%d)", k.idx, wg.IDX, wg.IDY, wg.IDZ, flat, k.cfg.FilterLo, k.cfg.FilterHi)
+						return
+					}
 				}
 				k.mapped[coord]++
 				k.mappedN++
